@@ -208,6 +208,31 @@ func (r *runner) mflushfail() {
 	r.c.Branch("meta-flush-" + strings.ReplaceAll(out, " ", "-"))
 }
 
+// mflushfails: the kv commit of the schema family's flush fails (ns and metric dictionaries flushed before it)
+func (r *runner) mflushfails() {
+	out := r.guard("mflushfails", func() string { return okOut(r.s.metaFlushFailSchema()) })
+	r.o.syncDone()
+	r.c.Branch("meta-flush-schema-" + strings.ReplaceAll(out, " ", "-"))
+}
+
+// mcompact / icompact: level-0 compaction of every family of the metadata store / of one index store.
+// Nothing may change for the callers; the stores switch to the compacted files at their next flush or reopen.
+func (r *runner) mcompact() {
+	out := r.guard("mcompact", func() string { return okOut(r.s.metaCompact()) })
+	if out != "ok" {
+		r.c.Fail("compaction-failed", "mcompact: "+out)
+	}
+	r.c.Branch("meta-compact")
+}
+
+func (r *runner) icompact(shard int) {
+	out := r.guard(fmt.Sprintf("icompact %d", shard), func() string { return okOut(r.s.indexCompact(shard)) })
+	if out != "ok" {
+		r.c.Fail("compaction-failed", fmt.Sprintf("icompact %d: %s", shard, out))
+	}
+	r.c.Branch("index-compact")
+}
+
 func (r *runner) iflushfail(shard int) {
 	out := r.guard(fmt.Sprintf("iflushfail %d", shard), func() string { return okOut(r.s.indexFlushFail(shard)) })
 	r.c.Branch("index-flush-" + strings.ReplaceAll(out, " ", "-"))
@@ -435,6 +460,14 @@ func (area) Run(c *core.Ctx) error {
 			err = witnessIndexCommitCrash(c, db, i-9)
 		case 13:
 			err = witnessBucketCacheRace(c, db)
+		case 14:
+			err = witnessSchemaFlushFails(c, db)
+		case 15:
+			err = witnessCompaction(c, db)
+		case 16:
+			err = witnessMemdbRace(c, db)
+		case 17:
+			err = memdbBarrierRegion(c, db)
 		default:
 			err = randomCase(c, rng, db)
 		}
@@ -528,9 +561,19 @@ func randomCase(c *core.Ctx, rng *rand.Rand, db string) error {
 			default:
 				r.findTV(pick(rng, r.tagKeyIDs, 6), rng.Intn(nVals))
 			}
-		case k < 90:
+		case k < 91:
 			// mostly the realistic shape: PrepareFlush, some more names, then the flush fails
-			if rng.Intn(2) == 0 {
+			if w := rng.Intn(5); w == 0 {
+				r.mcompact()
+			} else if w == 1 {
+				r.icompact(rng.Intn(nShards))
+			} else if w == 2 {
+				if rng.Intn(3) != 0 {
+					r.field(pick(rng, r.metricIDs, 6), rng.Intn(nFields))
+					r.mprepare()
+				}
+				r.mflushfails()
+			} else if w == 3 {
 				if rng.Intn(3) != 0 {
 					r.mprepare()
 					r.metric(rng.Intn(nNS), rng.Intn(nMetric))
@@ -543,7 +586,7 @@ func randomCase(c *core.Ctx, rng *rand.Rand, db string) error {
 				}
 				r.iflushfail(sh)
 			}
-		case k < 91:
+		case k < 92:
 			r.reopen()
 		case k < 94:
 			r.crash()
